@@ -131,6 +131,21 @@ def literal_after_simplify(e):
     return any(literal_after_simplify(a) for a in e[1:])
 
 
+def nesting_after_simplify(e):
+    """f(f(..)) that only appears after sympy's automatic simplification (e.g. mini(v - v + mini(a, b), c))"""
+    import sympy
+    try:
+        ex = sympy.sympify(E.to_str(e).replace('^', '**'))
+    except Exception:
+        return False
+    for node in sympy.preorder_traversal(ex):
+        if isinstance(node, sympy.Function) or getattr(node, 'is_Function', False):
+            for a in getattr(node, 'args', ()):
+                if getattr(a, 'func', None) == node.func:
+                    return True
+    return False
+
+
 def count_nodes(e):
     if e[0] in ('num', 'var', 'const'):
         return 1
@@ -195,7 +210,8 @@ def run_case(case, ctx):
                 flags.pop('nested', None)
                 flags.pop('literal_call', None)
                 e = gen_expr(rnd, names, rnd.randint(2, 5), flags)
-                nest, litc = E.has_direct_nesting(e), E.has_literal_call(e) or literal_after_simplify(e)
+                nest = E.has_direct_nesting(e) or nesting_after_simplify(e)
+                litc = E.has_literal_call(e) or literal_after_simplify(e)
                 if (want == 'direct_nested_same_function') != nest:
                     continue
                 if (want == 'call_on_literal') != litc:
